@@ -124,13 +124,13 @@ func (a *AliasMangler) Unmangle(sf reflect.StructField, fvs []FieldValueTuple) (
 		return reflect.Value{}, fmt.Errorf("expected 1 or 2 tuples, got %d", len(fvs))
 	}
 
-	if !fvs[0].Value.IsNil() && !fvs[1].Value.IsNil() {
+	if !isUnset(fvs[0].Value) && !isUnset(fvs[1].Value) {
 		return reflect.Value{}, fmt.Errorf("both alias and original set for field %q", sf.Name)
 	}
 
 	// return the first one that isn't nil
 	for _, fv := range fvs {
-		if !fv.Value.IsNil() {
+		if !isUnset(fv.Value) {
 			return fv.Value, nil
 		}
 	}
@@ -138,6 +138,18 @@ func (a *AliasMangler) Unmangle(sf reflect.StructField, fvs []FieldValueTuple) (
 	// if we made it this far, they were both nil, which is fine -- just return
 	// one of them.
 	return fvs[0].Value, nil
+}
+
+// isUnset reports whether v holds no value: nil for the nillable kinds, and
+// the zero value for the others (the fields of structs inside slices, arrays
+// and maps are not pointerified, so IsNil would panic on them).
+func isUnset(v reflect.Value) bool {
+	switch v.Kind() {
+	case reflect.Ptr, reflect.Map, reflect.Slice, reflect.Interface, reflect.Chan, reflect.Func:
+		return v.IsNil()
+	default:
+		return v.IsZero()
+	}
 }
 
 // ShouldRecurse is called after Mangle for each field so nested struct
